@@ -23,6 +23,7 @@ PolsDefault == {DefaultPol}
 PolsSample  == {Pol(h, a, "unique") : h \in HashPols, a \in {"all", "unique"}}
 PolsAll     == {Pol(h, a, "unique") : h \in HashPols, a \in ArrPols}
 PolsSeq     == {Pol("deep", a, "unique") : a \in ArrPols}        \* root-level Arrays: only --arrays matters
+PolsSeqQ    == {Pol("deep", a, "unique") : a \in {"all", "unique"}}
 PolsSet     == {Pol("deep", "all", sp) : sp \in SetPols}         \* root-level Sets: only --sets matters
 PolsRoot    == PolsSeq \cup PolsSet
 PolsEvery   == {Pol(h, a, sp) : h \in HashPols, a \in ArrPols, sp \in SetPols}
